@@ -28,6 +28,16 @@ def scenarios(thorough):
                      apps={1: {"chunks": [40, 40]}, 2: {"chunks": [30]}}))
     out.append(cc.mk([P(1), P(2)], lookahead=1, workers=2, room=0, extra_client=[["read", 7], ["read", 200], ["readall"]],
                      apps={1: {"chunks": [20], "cl": "none"}, 2: {"chunks": [5, 5], "write": True}}, name="2plain room0 chunked+write"))
+    # a reader that takes a few bytes at a time once both responses are queued (each response has its own out buffer):
+    # partial sends with several out buffers pending
+    out.append(cc.mk([P(1), P(2)], lookahead=1, workers=1, room=10, extra_client=[["read_after_block", 2, 25], ["read_after_block", 4, 60], ["readall_after_block", 5]],
+                     apps={1: {"chunks": [40]}, 2: {"chunks": [30]}}, name="2plain la=1, reader takes 25, 60, then all"))
+    out.append(cc.mk([P(1), P(2), P(3)], lookahead=2, workers=2, room=0, extra_client=[["read_after_block", 3, 200], ["read_after_block", 4, 100], ["readall_after_block", 5]],
+                     name="3plain la=2, reader takes 200, 100, then all"))
+    # more than outbuf_high_watermark pending when a request ends and the next one is already queued: the worker
+    # drains (service-time watermark flush) while the I/O thread may be in handle_write
+    out.append(cc.mk([P(1), P(2)], lookahead=1, workers=1, room=30, extra_client=[["read_after_block", 1, 40], ["read_after_block", 2, 50], ["readall_after_block", 3]],
+                     apps={1: {"chunks": [60]}, 2: {"chunks": [30]}}, adj={"outbuf_high_watermark": 50}, name="2plain la=1 hwm=50, backlog above the mark at the end of a request"))
     # the same with a socket that accepts nothing at first (output stays pending while the worker finishes)
     slow = [["readall_after_block", 1]]
     out.append(cc.mk([P(1), P(2)], lookahead=1, workers=2, room=0, extra_client=slow, name="2plain la=1 slow client"))
